@@ -20,6 +20,7 @@ import (
 // Op is one generated operation; the fields used depend on the engine.
 type Op struct {
 	K    string   `json:"k"`
+	ID   int      `json:"id,omitempty"` // stable id; created objects are referenced by the id of the creating op
 	H    int      `json:"h,omitempty"`  // handle reference (object index; 0 = root)
 	H2   int      `json:"h2,omitempty"` // second handle reference
 	N    string   `json:"n,omitempty"`
